@@ -404,9 +404,19 @@ class Folder:
                 _bind(g.target, item, env2)
                 s2 = self.child(env2)
                 if all(s2.fold(c) for c in g.ifs):
+                    for k in getattr(s2, "_walrus", ()):  # names bound by := in a condition are visible to the element
+                        env2[k] = s2.local[k]
                     rec(i + 1, env2)
 
         rec(0, {})
+
+    def _f_NamedExpr(self, n):
+        v = self.fold(n.value)
+        if not isinstance(n.target, ast.Name):
+            raise NotConst("walrus target")
+        self.local[n.target.id] = v
+        self._walrus = getattr(self, "_walrus", set()) | {n.target.id}
+        return v
 
     def _f_Lambda(self, n):
         if n.args.vararg or n.args.kwarg or n.args.kwonlyargs or n.args.defaults:
